@@ -780,6 +780,17 @@ pub fn run_c07(tier: &str) -> i32 {
                     let mut pres = Presentation::of(&case_y, &named_x);
                     pres.layer = Layer::ALL[li];
                     check("C07", "authentic-for-Y-but-header-names-X", &case_y, &ty, &pres, None, &mut acc);
+                    // X's header in front of the whole Y token (the string names X; Y's token follows), and Y's own
+                    // header after X's in the first two segments
+                    for (tag, text) in [
+                        ("X-header-prepended-to-Y-token", format!("{}{}", x.header(), ty)),
+                        ("X-header-prepended-without-dot", format!("{}{}", x.name(), ty)),
+                        ("Y-token-after-X-header-and-payload", format!("{}AAAA.{}", x.header(), ty)),
+                    ] {
+                        let mut pres = Presentation::of(&case_y, &text);
+                        pres.layer = Layer::ALL[li];
+                        check("C07", tag, &case_y, &ty, &pres, None, &mut acc);
+                    }
                 }
             }
             // everything below needs a token made by X's own implementation
